@@ -155,6 +155,8 @@ class PcolSuite:
             for dt in (True, False):
                 for mode in ("auto", "source", "destination", "Source", "dest", "", "automatic"):
                     cases.append({"k": "opt", "src_trough": st, "dst_trough": dt, "mode": mode})
+                    if mode in ("auto", "source", "destination"):
+                        cases.append({"k": "opt", "src_trough": st, "dst_trough": dt, "mode": mode, "via_labware": True})
         return cases
 
     def run(self, case):
@@ -163,8 +165,15 @@ class PcolSuite:
         from robotools.worklists.utils import optimize_partition_by, partition_by_column
 
         if case["k"] == "opt":
-            mk = lambda tr, nm: (robotools.Trough(nm, 4, 2, min_volume=0, max_volume=100) if tr
-                                 else robotools.Labware(nm, 4, 2, min_volume=0, max_volume=100))
+            import warnings
+
+            warnings.simplefilter("ignore")
+            if case.get("via_labware"):
+                mk = lambda tr, nm: (robotools.Labware(nm, 1, 2, virtual_rows=4, min_volume=0, max_volume=100) if tr
+                                     else robotools.Labware(nm, 4, 2, min_volume=0, max_volume=100))
+            else:
+                mk = lambda tr, nm: (robotools.Trough(nm, 4, 2, min_volume=0, max_volume=100) if tr
+                                     else robotools.Labware(nm, 4, 2, min_volume=0, max_volume=100))
             try:
                 out = optimize_partition_by(mk(case["src_trough"], "s"), mk(case["dst_trough"], "d"), case["mode"], "lbl")
                 return {"err": None, "val": out}
@@ -282,6 +291,8 @@ class WellsSuite:
         for r in trows:
             for c in tcols:
                 cases.append({"k": "geom", "trough": True, "rows": r, "cols": c})
+                if (r + c) % 2 == 0:
+                    cases.append({"k": "geom", "trough": True, "rows": r, "cols": c, "via_labware": True})
         rng = random.Random(seed + 1)
         geoms = [(False, 8, 12), (False, 1, 1), (False, 26, 99), (False, 4, 100), (True, 4, 2), (True, 1, 1), (True, 8, 12), (False, 2, 3)]
         for tr, r, c in geoms:
@@ -298,6 +309,12 @@ class WellsSuite:
     def _mk(case):
         import robotools
 
+        if case["trough"] and case.get("via_labware"):
+            import warnings
+
+            with warnings.catch_warnings():
+                warnings.simplefilter("ignore")
+                return robotools.Labware("T", 1, case["cols"], virtual_rows=case["rows"], min_volume=0, max_volume=10)
         if case["trough"]:
             return robotools.Trough("T", case["rows"], case["cols"], min_volume=0, max_volume=10)
         return robotools.Labware("P", case["rows"], case["cols"], min_volume=0, max_volume=10)
@@ -476,6 +493,8 @@ def ctor_specs(rng, tier):
         mode = rng.choice(["none", "scalar", "list", "2d"] if good else ["none", "scalar", "list", "2d", "badlist", "bad2d", "nan", "neg", "big", "inf"])
 
         def val():
+            if rng.random() < 0.06:
+                return rng.choice(["1/1073741824", "1/1099511627776", "1/1024"])
             return fs(Fraction(rng.randrange(0, int(max(1, mxv)) * 8 + 1), 8)) if rng.random() < 0.7 else "0"
 
         if r_ok * c_ok > 300:
@@ -526,6 +545,8 @@ def ctor_specs(rng, tier):
         mode = rng.choice(["none", "scalar", "list", "list"] if good else ["none", "scalar", "list", "list", "badlist", "2d", "nan", "neg", "big"])
 
         def val():
+            if rng.random() < 0.06:
+                return rng.choice(["1/1073741824", "1/1099511627776", "1/1024"])
             return fs(Fraction(rng.randrange(0, int(mxv) * 8 + 1), 8)) if rng.random() < 0.7 else "0"
 
         if mode == "none":
@@ -914,6 +935,9 @@ class XformSuite:
                     cases.append({"k": d, "R": R, "C": C, "wells": {"shape": "list", "v": [wid(rng.randrange(R), rng.randrange(C)) for _ in range(3)]}})
                     cases.append({"k": d, "R": R, "C": C, "wells": {"shape": "2d", "v": [[wid(r, c) for r in range(R)][::-1] for c in range(C)]}})
                 cases.append({"k": "cw", "R": R, "C": C, "wells": {"shape": "scalar", "v": wid(R - 1, C - 1)}})
+                if R > 1 and C > 1:
+                    for d in ("cw", "ccw"):
+                        cases.append({"k": d, "R": R, "C": C, "wells": allw, "fortran": True})
                 cases.append({"k": "ccw", "R": R, "C": C, "wells": {"shape": "list", "v": [wid(R, 0)]}})
         RB, CB = (4, 6) if tier == "quick" else (6, 8)
         for rb in range(1, RB + 1):
@@ -927,6 +951,8 @@ class XformSuite:
                                 anchor = wid(ar, ac)
                                 allw = {"shape": "2d", "v": [[wid(r, c) for c in range(ca)] for r in range(ra)]}
                                 cases.append({"k": "shift", "A": [ra, ca], "B": [rb, cb], "anchor": anchor, "wells": allw})
+                                if ra > 1 and ca > 1:
+                                    cases.append({"k": "shift", "A": [ra, ca], "B": [rb, cb], "anchor": anchor, "wells": allw, "fortran": True})
                                 # unsorted, repeated, column-major and reversed arguments
                                 flat = [wid(r, c) for r in range(ra) for c in range(ca)]
                                 pick = [rng.choice(flat) for _ in range(rng.choice([2, 3, 5]))]
@@ -960,19 +986,22 @@ class XformSuite:
 
         k = case["k"]
         out = {}
+        arg = np_arg(case["wells"])
+        if case.get("fortran"):
+            arg = numpy.asfortranarray(arg)  # same values and shape, column-major memory layout
         try:
             if k in ("cw", "ccw"):
                 rot = transform.WellRotator((case["R"], case["C"]))
-                res = (rot.rotate_cw if k == "cw" else rot.rotate_ccw)(np_arg(case["wells"]))
+                res = (rot.rotate_cw if k == "cw" else rot.rotate_ccw)(arg)
             elif k in ("shift", "unshift"):
                 sh = transform.WellShifter(tuple(case["A"]), tuple(case["B"]), case["anchor"])
-                res = (sh.shift if k == "shift" else sh.unshift)(np_arg(case["wells"]))
+                res = (sh.shift if k == "shift" else sh.unshift)(arg)
             else:
                 rnd = transform.WellRandomizer((case["R"], case["C"]), case["seed"], mode=case["mode"])
                 rnd2 = transform.WellRandomizer((case["R"], case["C"]), case["seed"], mode=case["mode"])
                 out["lookup"] = [[a, str(b)] for a, b in rnd.lookup.items()]
                 out["same_seed_same_lookup"] = {a: str(b) for a, b in rnd.lookup.items()} == {a: str(b) for a, b in rnd2.lookup.items()}
-                res = (rnd.randomize_wells if k == "rand" else rnd.derandomize_wells)(np_arg(case["wells"]))
+                res = (rnd.randomize_wells if k == "rand" else rnd.derandomize_wells)(arg)
             res = numpy.asarray(res)
             out.update({"err": None, "shape": list(res.shape), "val": [None if x is None else str(x) for x in res.flatten().tolist()]})
         except Exception as e:
@@ -1088,7 +1117,7 @@ class SaveSuite:
             name = rng.choice(["out.gwl", "out.gwl", "OUT.GWL", "a b.Gwl", "out.gwl", "run 7.gwl", "µ.gwl", "a..gwl", "..gwl",
                                "out.txt", "out", "gwl", "x.gwl.txt", "my.gwl.bak", ".gwl", "a.gwl.", "agwl"])
             cases.append({"recs": recs, "name": name, "pre": rng.choice([None, "short", "long"]), "aspath": rng.random() < 0.5,
-                          "via": rng.choice(["save", "save", "with", "with_exc", "twice"])})
+                          "via": rng.choice(["save", "save", "with", "with_exc", "twice", "with_save_other"])})
         return cases
 
     def run(self, case):
@@ -1124,6 +1153,10 @@ class SaveSuite:
                         with wl as w:
                             entered_empty = len(w) == 0
                             w.extend(case["recs"])
+                            if case["via"] == "with_save_other":
+                                other = pathlib.Path(d) / "snapshot.gwl"
+                                w.save(other)
+                                w.append("C;after the snapshot")
                             if case["via"] == "with_exc":
                                 raise KeyError("boom")
                     except KeyError:
@@ -1131,7 +1164,11 @@ class SaveSuite:
             except Exception as e:
                 exc = e
             content = p.read_bytes().decode("latin-1") if p.exists() else None
-            return {"err": errcode(exc), "exc": type(exc).__name__ if exc else None, "content": content,
+            other_content = None
+            if case["via"] == "with_save_other":
+                op_ = pathlib.Path(d) / "snapshot.gwl"
+                other_content = op_.read_bytes().decode("latin-1") if op_.exists() else None
+            return {"other_content": other_content, "err": errcode(exc), "exc": type(exc).__name__ if exc else None, "content": content,
                     "shown": str(wl), "entered_empty": entered_empty,
                     "readback": content.split("\r\n") if content is not None else None,
                     "filepath_ok": (wl.filepath == p) if case["via"].startswith("with") else None}
@@ -1139,6 +1176,9 @@ class SaveSuite:
             shutil.rmtree(d, ignore_errors=True)
 
     def emit(self, case, obs):
+        if case["via"] == "with_save_other":
+            case = dict(case, recs=case["recs"] + ["C;after the snapshot"])
+            obs = dict(obs, shown="\n".join(case["recs"]))
         pre = {None: None, "short": "x", "long": "OLD;" * 5000 + "\r\nTAIL"}[case["pre"]]
         content = obs["content"]
         # the model starts from "no file"; a refused save leaves the old content, which the model does not carry
@@ -1166,6 +1206,13 @@ class SaveSuite:
             return bad
         if obs.get("err"):
             return [f"accept: save raised {obs['exc']}"]
+        recs_final = case["recs"] + (["C;after the snapshot"] if case["via"] == "with_save_other" else [])
+        if case["via"] == "with_save_other":
+            if obs["other_content"] != "\r\n".join(case["recs"]):
+                bad.append("content: the file written by save() inside the with block is not the records at that moment")
+            if obs["content"] != "\r\n".join(recs_final):
+                bad.append("content: leaving the with block did not write the records to the path given at construction")
+            return bad
         want = "\r\n".join(case["recs"])
         if obs["content"] != want:
             bad.append("content: file is not exactly the records joined by CRLF")
